@@ -216,14 +216,14 @@ def drive(case):
     compat.install()
     import emu_mps.mps_backend_impl as M
     from emu_mps.solver import Solver
-    from pulser.backend import Energy
+    from pulser.backend import Energy, StateResult
 
     n = case["n"]
     U = chain_U(n, case["a"])
     times = case["times"]
     data = compat.make_sequence_data(np.array(case["omega"]), np.array(case["delta"]), np.array(case["phi"]), U, times)
     ev_times = [t / times[-1] for t in times]
-    config = compat.mps_config(solver=Solver.DMRG, observables=[Energy(evaluation_times=ev_times)],
+    config = compat.mps_config(solver=Solver.DMRG, observables=[Energy(evaluation_times=ev_times), StateResult(evaluation_times=ev_times)],
                                optimize_qubit_ordering=bool(case.get("reorder")), **case.get("cfg", {}))
     impl = M.DMRGBackendImpl(config, data, energy_tolerance=case["tol"], max_sweeps=case["max_sweeps"])
     impl.init()
@@ -297,6 +297,11 @@ def drive(case):
         out["reported_times"] = list(impl.results.get_result_times("energy"))
     except Exception:  # noqa: BLE001 — no energy recorded (cannot happen: t=0 is always an evaluation time)
         out["reported"], out["reported_times"] = [], []
+    try:
+        out["returned_states"] = [dict(centre=m.orthogonality_center, factors=[f.detach().clone() for f in m.factors])
+                                  for m in impl.results.state]
+    except Exception:  # noqa: BLE001
+        out["returned_states"] = []
     out["impl_rows"] = (impl.omega.real.numpy().copy(), impl.delta.real.numpy().copy(), impl.phi.real.numpy().copy())
     out["final_state"] = dict(centre=impl.state.orthogonality_center,
                               factors=[f.detach().clone() for f in impl.state.factors])
@@ -335,14 +340,14 @@ def step_line(cfgw, before, e):
 
 
 # ------------------------------------------------------------------ numerical oracles on one real run
-def check_canonical(tag, st, n):
-    """centre 0, norm 1, every factor right of site 0 right-orthonormal (all to 1e-8)."""
+def check_canonical(tag, st, n, norm_tol=1e-8):
+    """centre 0, norm 1 (to `norm_tol`), every factor right of site 0 right-orthonormal (1e-8)."""
     import torch
     fs = st["factors"]
     if st["centre"] != 0:
         return f"{tag}: orthogonality_center is {st['centre']!r}, not 0"
     nrm = float(torch.linalg.norm(fs[0]))
-    if abs(nrm - 1.0) > 1e-8:
+    if abs(nrm - 1.0) > norm_tol:
         return f"{tag}: norm of the centre factor is {nrm!r} (state not normalised)"
     for i in range(1, len(fs)):
         a = fs[i].reshape(fs[i].shape[0], -1)
@@ -354,7 +359,7 @@ def check_canonical(tag, st, n):
         import numpy as np
         v = dense_state(fs)
         d = abs(float(np.vdot(v, v).real) - 1.0)
-        if d > 1e-8:
+        if d > 2 * norm_tol:
             return f"{tag}: |<psi|psi> - 1| = {d:.3e}"
     return None
 
@@ -368,15 +373,24 @@ def oracle(case, out, rep=None):
     if out["halt"] in ("IndexError", "AssertionError", "other", "guard"):
         bad.append((f"real DMRGBackendImpl raised {out['halt']}: {out['exc']}", None))
         return bad
+    # the solver's own state: canonical exactly; its norm is 1 up to the weight discarded by the last truncation
+    # (<= precision^2 by default; a max_bond_dim cap may discard more — the returned copy below is renormalised)
+    ntol = 1e-8 if not case.get("cfg") else 1e-2
     for c in out["completed"]:
-        msg = check_canonical(f"state handed to timestep_complete(step {c['k']})", c, n)
+        msg = check_canonical(f"state handed to timestep_complete(step {c['k']})", c, n, ntol)
         if msg:
             bad.append((msg, None))
             break
     if out["finished"]:
-        msg = check_canonical("returned state", out["final_state"], n)
+        msg = check_canonical("solver state at the end", out["final_state"], n, ntol)
         if msg:
             bad.append((msg, None))
+    # what the user gets (StateResult): normalised and canonical to 1e-8, always
+    for j, st in enumerate(out["returned_states"]):
+        msg = check_canonical(f"state returned at evaluation time #{j}", st, n)
+        if msg:
+            bad.append((msg, None))
+            break
     if case.get("tape") is not None:
         return bad
     U = chain_U(n, case["a"])
